@@ -68,12 +68,18 @@ func (m *Request) Marshal() (b []byte, err error) {
 
 // Unmarshal a byte slice into a Reply.
 func (m *Reply) Unmarshal(b []byte) error {
+	if len(b) < 6 {
+		return fmt.Errorf("kadmin reply of %d bytes is too short to hold its header", len(b))
+	}
 	m.MessageLength = int(binary.BigEndian.Uint16(b[0:2]))
 	m.Version = int(binary.BigEndian.Uint16(b[2:4]))
 	if m.Version != 1 {
 		return fmt.Errorf("kadmin reply has incorrect protocol version number: %d", m.Version)
 	}
 	m.APREPLength = int(binary.BigEndian.Uint16(b[4:6]))
+	if m.MessageLength > len(b) || 6+m.APREPLength > m.MessageLength {
+		return fmt.Errorf("kadmin reply lengths (message %d, AP-REP %d) do not fit the %d bytes received", m.MessageLength, m.APREPLength, len(b))
+	}
 	if m.APREPLength != 0 {
 		err := m.APREP.Unmarshal(b[6 : 6+m.APREPLength])
 		if err != nil {
@@ -85,13 +91,19 @@ func (m *Reply) Unmarshal(b []byte) error {
 		}
 	} else {
 		m.IsKRBError = true
-		m.KRBError.Unmarshal(b[6:m.MessageLength])
+		if err := m.KRBError.Unmarshal(b[6:m.MessageLength]); err != nil {
+			return err
+		}
 		m.ResultCode, m.Result = parseResponse(m.KRBError.EData)
 	}
 	return nil
 }
 
 func parseResponse(b []byte) (c uint16, s string) {
+	if len(b) < 2 {
+		// no result code: report a generic hard error (KRB5_KPASSWD_HARDERROR)
+		return 2, ""
+	}
 	c = binary.BigEndian.Uint16(b[0:2])
 	buf := bytes.NewBuffer(b[2:])
 	m := make([]byte, len(b)-2)
